@@ -700,10 +700,11 @@ type decls struct {
 	hasStrU  bool
 	seen     map[*Term]bool
 	strLits  map[string]bool
+	intLits  map[int64]bool // small integer literals (candidate type tags)
 }
 
 func newDecls() *decls {
-	return &decls{consts: map[string]*Sort{}, defSeen: map[string]bool{}, funcs: map[string]string{}, seen: map[*Term]bool{}, strLits: map[string]bool{}}
+	return &decls{consts: map[string]*Sort{}, defSeen: map[string]bool{}, funcs: map[string]string{}, seen: map[*Term]bool{}, strLits: map[string]bool{}, intLits: map[int64]bool{}}
 }
 
 func (d *decls) visit(t *Term) {
@@ -717,6 +718,12 @@ func (d *decls) visit(t *Term) {
 	switch t.Op {
 	case "str":
 		d.strLits[t.Str] = true
+	case "int":
+		if t.Int.IsInt64() {
+			if v := t.Int.Int64(); v >= 1 && v < 100000 {
+				d.intLits[v] = true
+			}
+		}
 	case "const":
 		d.consts[t.Name] = t.Sort
 		d.noteSort(t.Sort)
